@@ -148,6 +148,7 @@ let maxstat k v = if v > (try Hashtbl.find stats k with Not_found -> 0) then Has
 let () =
   let cases = ref 0 and nops = ref 0 and nontrivial = Hashtbl.create 4096 in
   let lineno = ref 0 and samples = ref 0 and known_printed = ref 0 in
+  let fidbuf = Buffer.create 1024 and nfid = ref 0 in
   (try
      while true do
        let line = input_line stdin in
@@ -156,8 +157,14 @@ let () =
          let parts = List.map String.trim (split '|' line) in
          let head = List.hd parts and body = List.tl parts in
          let opno = ref 0 in
+         (* api mismatches are printed at once; fidelity ones after them, at the end of the run,
+            so that a property-level failure is never crowded out by structural differences *)
          let mism kind fmt = Printf.ksprintf (fun s ->
-             Printf.printf "MISMATCH line=%d op=%d kind=%s what=%s\n" !lineno !opno kind s) fmt in
+             if kind = "api" then Printf.printf "MISMATCH line=%d op=%d kind=%s what=%s\n" !lineno !opno kind s
+             else begin
+               incr nfid;
+               if !nfid <= 25 then Buffer.add_string fidbuf (Printf.sprintf "MISMATCH line=%d op=%d kind=%s what=%s\n" !lineno !opno kind s)
+             end) fmt in
          (try
             let htoks = List.filter (fun s -> s <> "") (split ' ' head) in
             let kind, wsname, auts = match htoks with k :: w :: r -> (k, w, r) | _ -> failwith "bad header" in
@@ -354,5 +361,6 @@ let () =
        end
      done
    with End_of_file -> ());
-  Printf.printf "STAT cases=%d\nSTAT ops=%d\nSTAT nontrivial=%d\n" !cases !nops (Hashtbl.length nontrivial);
+  print_string (Buffer.contents fidbuf);
+  Printf.printf "STAT cases=%d\nSTAT ops=%d\nSTAT nontrivial=%d\nSTAT fidelity_mismatches=%d\n" !cases !nops (Hashtbl.length nontrivial) !nfid;
   Hashtbl.iter (fun k v -> Printf.printf "STAT %s=%d\n" k v) stats
